@@ -5,6 +5,7 @@ import lib
 import solver_checks as SC
 import graph_checks as GC
 import gen_checks as NC
+import board_checks as BC
 
 N_GAMES = dict(quick=1500, thorough=40000)
 
@@ -22,6 +23,7 @@ def games_nonabs(rng, tier):
 
 
 CHECKERS = {
+    'board': BC.check_board,
     'params': NC.check_params,
     'names': NC.check_names,
     'graph': GC.check_graph,
@@ -42,3 +44,6 @@ SUITES['C07'] = [dict(name='graphs', gen=GC.gen_graphs, checker='graph')]
 
 SUITES['C15'] = [dict(name='parameter-sets-and-boards', gen=NC.gen_params, checker='params')]
 SUITES['C17'] = [dict(name='file-names', gen=NC.gen_names, checker='names')]
+
+SUITES['C08'] = [dict(name='boards-vs-roborta-game', gen=BC.gen_boards, checker='board')]
+SUITES['C11'] = [dict(name='boards-file-proper', gen=BC.gen_boards, checker='board'), dict(name='parameter-sets-and-boards', gen=NC.gen_params, checker='params')]
